@@ -14,13 +14,47 @@ import traceback
 from .report import jhash
 
 _RUNNER = None  # set before fork
+_PROP = ["C??"]
+CASE_TIMEOUT = int(os.environ.get("VERIF_CASE_TIMEOUT", "600"))  # seconds; a case of the unchanged tree takes at most a few
+WORKER_AS_LIMIT = int(os.environ.get("VERIF_WORKER_MEM", str(4 << 30)))  # bytes of address space per worker process
+
+
+class CaseTimeout(BaseException):
+    """Raised inside a worker when one case runs beyond CASE_TIMEOUT (BaseException: a check's own `except Exception` does not eat it)."""
+
+
+def guard_worker():
+    """Pool initializer: code under test that loops or allocates without end must end as a report, not as a dead sandbox."""
+    import resource
+    import signal
+
+    try:
+        resource.setrlimit(resource.RLIMIT_AS, (WORKER_AS_LIMIT, WORKER_AS_LIMIT))
+    except (ValueError, OSError):
+        pass
+
+    def on_alarm(signum, frame):
+        raise CaseTimeout()
+
+    signal.signal(signal.SIGALRM, on_alarm)
 
 
 def _run_chunk(chunk):
     out = []
+    import signal
+
     for case in chunk:
         try:
-            res = _RUNNER(case)
+            signal.alarm(CASE_TIMEOUT)
+            try:
+                res = _RUNNER(case)
+            finally:
+                signal.alarm(0)
+        except (CaseTimeout, MemoryError) as e:
+            # the implementation did not come back (or ate the worker's memory) on this case: that is a finding about the code under
+            # test, reported under the property whose space the case belongs to
+            why = "did-not-finish-within-%ds" % CASE_TIMEOUT if isinstance(e, CaseTimeout) else "exhausted-worker-memory"
+            res = {"ev": 1, "h": jhash(case), "nt": True, "out": "RUNAWAY", "viol": [("%s:runaway:%s" % (_PROP[0], why), case, {"limit_bytes": WORKER_AS_LIMIT})]}
         except Exception as e:  # noqa: BLE001  harness error, surfaced as internal error
             res = {"ev": 1, "h": jhash(case), "out": "HARNESS-ERROR",
                    "err": "%s: %s\n%s" % (type(e).__name__, e, traceback.format_exc()[-1500:]), "case": case}
@@ -43,6 +77,7 @@ def explore(run, cases, runner, workers=None, chunk=64, sample_every=None, rever
     from the other side. Used by thorough tiers."""
     global _RUNNER
     _RUNNER = runner
+    _PROP[0] = getattr(run, "prop", "C??")
     workers = workers or workers_default()
     if reversed_pass:
         cases = list(cases)
@@ -76,7 +111,7 @@ def explore(run, cases, runner, workers=None, chunk=64, sample_every=None, rever
             consume(_run_chunk(c))
     else:
         ctx = mp.get_context("fork")
-        with ctx.Pool(workers) as pool:
+        with ctx.Pool(workers, initializer=guard_worker) as pool:
             for results in pool.imap_unordered(_run_chunk, chunks()):
                 consume(results)
     return n
